@@ -5,7 +5,7 @@
    queries:
      CHK <F|M><s?> <opcode> <tn> <td> <en> <ed> <A> <B> <R>
           F = overlay_check, U = unary_check (B ignored), M = membership_check (ClipByRect); a trailing 's' asks for the witness statistics
-          -> "1" | "0 valid=<b> shape=<b> sides=<x/y/w;..> lows=<..> segs=<x,y-x,y;..> pts=<x,y;..>"   [ " # nside nfar nlow nexp" ]
+          -> "1" | "0 valid=<b> shape=<b> sides=<x/y/w;..> lows=<..> conv=<..> segs=<x,y-x,y;..> pts=<x,y;..>"   [ " # nside nfar nlow nexp" ]
      VAL <geom>    -> "1" | "0 <rule code>"
      AREA <tn> <td> <A> <B> <I> <U> <D> <S> <E>  -> "<1|0> a b i u d s e perim1"     (twice the areas)
      DIM <geom>    -> "<dimension> <is_empty>"  *)
@@ -52,8 +52,9 @@ let () =
       let stats = String.length mode > 1 && mode.[1] = 's' in
       let v = if (not ok) || stats then Some (overlay_verdict (mode.[0] = 'U') p o a b r) else None in
       let head = if ok then "1" else (match v with
-        | Some v -> Printf.sprintf "0 valid=%s shape=%s sides=%s lows=%s segs=%s pts=%s" (b2s v.v_valid) (b2s v.v_shape)
+        | Some v -> Printf.sprintf "0 valid=%s shape=%s sides=%s lows=%s conv=%s segs=%s pts=%s" (b2s v.v_valid) (b2s v.v_shape)
             (String.concat ";" (List.map show_h (cap 4 v.v_sides))) (String.concat ";" (List.map show_h (cap 4 v.v_lows)))
+            (String.concat ";" (List.map show_h (cap 4 v.v_lows2)))
             (String.concat ";" (List.map (fun (u, w) -> show_p u ^ "-" ^ show_p w) (cap 4 v.v_segs)))
             (String.concat ";" (List.map show_p (cap 4 v.v_pts)))
         | None -> "0") in
